@@ -39,7 +39,21 @@ func main() {
 			c := genCase(rand.New(rand.NewSource(cs)), i, cs, pf)
 			emit(w, runCase(c))
 		}
-	case "prune", "desired", "neutral", "debug":
+	case "curry", "saveto", "filler":
+		rng := rand.New(rand.NewSource(*seed))
+		var lines []string
+		switch cmd {
+		case "curry":
+			lines = runCurry(rng, *n)
+		case "saveto":
+			lines = runSaveTo(rng, *n)
+		case "filler":
+			lines = runFiller(rng, *n)
+		}
+		for _, l := range lines {
+			fmt.Fprintln(w, l)
+		}
+	case "prune", "desired", "neutral", "debug", "refl":
 		pf, ok := profiles[*profile]
 		if !ok {
 			fmt.Fprintln(os.Stderr, "unknown profile", *profile)
@@ -62,6 +76,8 @@ func main() {
 				emit(w, runNeutralPairs(c, sub))
 			case "debug":
 				emit(w, runDebugPair(c))
+			case "refl":
+				emit(w, runReflPair(c, sub))
 			}
 		}
 	case "probes":
